@@ -336,7 +336,7 @@ void h_step(void) {
   }
 #endif
 
-#if defined(SPEC_ANS) && !defined(SKIP_HIST)
+#if defined(SPEC_ANS)
   /* C04 step function against the spec function of one microstep (spec_step.h): the configuration after a step
      that returns OK is the one the Recommendation's algorithm computes from the configuration and history
      before it and the answers of is_matched / is_true */
@@ -353,11 +353,19 @@ void h_step(void) {
     }
     unsigned char sx[USCXML_MAX_NR_STATES_BYTES], se[USCXML_MAX_NR_STATES_BYTES];
     sps_config(g_pre.config, g_pre.history, sel, pristine, wit_spec_config, sx, se);
+#ifdef SKIP_HIST
+    /* nested histories: the shared history bit set is not read through the spec regions; steps that restore a history are left out */
+    if (!sps_hist_used)
+#endif
     __CPROVER_assert(bytes_eq(g_ctx.config, wit_spec_config), "C04.step: the configuration after the step is the one the microstep algorithm of the Recommendation yields (optimal enabled transition set, exit set, entry set with history and default completion)");
 #if D_ORDER_LOG
     /* executed content: with a log callback present, the handlers that ran are exactly those of the exit set, the
        optimal transition set and the entry set */
+#ifdef SKIP_HIST
+    if (g_pre.exec_content_log != 0 && !sps_hist_used) {
+#else
     if (g_pre.exec_content_log != 0) {
+#endif
       __CPROVER_assert(0, "CANARY executed-content clause reached");
       for (int i = 1; i < D_N; i++) {
         if (d_lognum[i] < 0) continue;
